@@ -122,6 +122,7 @@ STYLES = ["sync", "blockfirst", "noack", "late", "trickle", "random", "random", 
 
 class C20(Prop):
     id = "C20"
+    thorough_rounds = 3   # thorough tier: this many independently seeded rounds of the random generators (duplicates dropped)
     modules = ["H3.Props.C20"]
     engines = ["dyn"]
     design_ref = "DESIGN.md section 7, C20"
